@@ -248,7 +248,7 @@ async fn protocol_handler(app: Rc<App>, msg: v3::ProtocolMessage) -> Result<v3::
     guard.done = true;
     app.push(Ev::CtlExit { seq });
     match app.ctl_plan(seq) {
-        CtlPlan::Ack => Ok(match msg {
+        CtlPlan::Ack | CtlPlan::AckDiag => Ok(match msg {
             v3::ProtocolMessage::Subscribe(mut s) => {
                 for mut sub in &mut s {
                     let q = sub.qos();
